@@ -529,6 +529,16 @@ def oracle(chk, quick):
             bad("history:correlation_centroid", "correlation_centroid of an undisplaced pair (%dx%d, padding %d) processed after other references of the same shape: "
                 "%s, expected the array centre %s" % (ny, nx, pad, e or r4.ravel().tolist(), want2.ravel().tolist()),
                 ref=ref2.tolist(), earlier_ref=ref.tolist(), padding=pad, threshold=t)
+        # round 6: … also when the caller REFRESHES ONE reference buffer in place between calls (a reference updated every few frames):
+        # the second call must see the new contents (seeded change C15-L memoised the reference transform keyed on the array's identity)
+        buf = numpy.array(ref, dtype=float)
+        call_raw(C.correlation_centroid, numpy.asarray(im, dtype=float)[None], buf, threshold=t, padding=pad)      # the buffer AS IS, no copy
+        buf[...] = ref2
+        r6, e = call_raw(C.correlation_centroid, numpy.asarray(ref2, dtype=float)[None], buf, threshold=t, padding=pad)
+        if not near(r6, want2):
+            bad("history:correlation_centroid:buffer-refilled", "correlation_centroid of an undisplaced pair (%dx%d, padding %d) whose reference "
+                "is the buffer of the previous call, refilled in place: %s, expected the array centre %s"
+                % (ny, nx, pad, e or r6.ravel().tolist(), want2.ravel().tolist()), ref=ref2.tolist(), earlier_ref=ref.tolist(), padding=pad, threshold=t)
         for nm, arr in (("im:2d", st[0].copy()), ("im:stack", st.copy())):
             keep_i, keep_r = arr.copy(), g.copy()
             try:
